@@ -26,6 +26,23 @@ TU = "scriptplan/_cython/time_utils_cy.pyx"
 MP = "scriptplan/parser/macro_processor.py"
 
 MUTANTS = [
+    # ------------------------------------------------------------------ round 3 (second batch)
+    ("c02_day_range_sorted_ends", "C02", [(TP, "            if start_idx <= end_idx:\n                return day_order[start_idx : end_idx + 1]\n            else:\n                # Wrap around (unusual but supported)\n                return day_order[start_idx:] + day_order[: end_idx + 1]", "            if start_idx > end_idx:\n                start_idx, end_idx = end_idx, start_idx\n            return day_order[start_idx : end_idx + 1]")]),
+    ("c02_day_range_no_wrap", "C02", [(TP, "                return day_order[start_idx:] + day_order[: end_idx + 1]", "                return day_order[start_idx : end_idx + 1]")]),
+    ("c18_csv_drops_empty_rows", "C18", [(RP, "            writer.writerows(csv_data)", "            writer.writerows(row for row in csv_data if any(row))")]),
+    ("c19_generate_skips_empty_table", "C19", [(RP, "        for fmt in formats:\n            if not self.name:", "        if getattr(self.content, \"table\", None) is not None and not self.content.table.body_lines:\n            return 0\n\n        for fmt in formats:\n            if not self.name:")]),
+    ("c15_strip_shortcut_forgets_block_comments", "C15", [(MP, "    result = []\n    i = 0\n    n = len(text)\n\n    while i < n:\n        ch = text[i]\n        if ch in \"\\\"'\":", "    if \"#\" not in text and \"//\" not in text:\n        return text\n    result = []\n    i = 0\n    n = len(text)\n\n    while i < n:\n        ch = text[i]\n        if ch in \"\\\"'\":")]),
+    ("c15_builder_kept_on_parser", "C15", [(TP, "        self.parser: Lark = Lark(self.grammar, start=\"start\", parser=\"lalr\")\n", "        self.parser: Lark = Lark(self.grammar, start=\"start\", parser=\"lalr\")\n        self._builder = ModelBuilder()\n"),
+                                           (TP, "        builder = ModelBuilder()\n        project = builder.build(data)", "        project = self._builder.build(data)")]),
+    ("c14_date_checked_against_month_table", "C14", [(TP, "        val = self._get_value(items[0])\n        try:\n            return datetime.strptime(val, \"%Y-%m-%d\")", "        val = self._get_value(items[0])\n        from scriptplan.utils.time import TjTime\n        if int(val[8:10]) > TjTime.MON_MAX[int(val[5:7])]:\n            raise ValueError(f\"Invalid date {val}\")\n        try:\n            return datetime.strptime(val, \"%Y-%m-%d\")")]),
+    ("c17_idx_date_memo_not_cleared_by_resolution", "C17", [
+        (PJ, "        self.scoreboardNoLeaves: Optional[Scoreboard] = None\n", "        self.scoreboardNoLeaves: Optional[Scoreboard] = None\n        self._idxDates: dict[int, Any] = {}\n"),
+        (PJ, "        if _USE_CYTHON:\n            return project_idx_to_date(idx, self.attributes[\"start\"], self.attributes[\"scheduleGranularity\"])\n", "        kept = self._idxDates.get(idx)\n        if kept is not None:\n            return kept\n        if _USE_CYTHON:\n            kept = project_idx_to_date(idx, self.attributes[\"start\"], self.attributes[\"scheduleGranularity\"])\n            self._idxDates[idx] = kept\n            return kept\n"),
+        (PJ, "        self.attributes[key] = value\n        # When timingresolution is set", "        self.attributes[key] = value\n        if key in (\"start\", \"scheduleGranularity\"):\n            self._idxDates.clear()\n        # When timingresolution is set")]),
+    ("c11_date_to_idx_clamps_by_default", "C11", [(PJ, "        idx: int = math.floor(diff_seconds / self.attributes[\"scheduleGranularity\"])\n        return idx", "        idx: int = math.floor(diff_seconds / self.attributes[\"scheduleGranularity\"])\n        if forceIntoProject:\n            idx = min(max(idx, 0), self.scoreboardSize() - 1)\n        return idx")]),
+    ("c09_inherited_value_not_passed_on", "C09", [(PR, "                    parent_attr = self.parent._get_scenario_attribute(attrDef.id, scenarioIdx)\n                    if parent_attr.provided or parent_attr.inherited:", "                    parent_attr = self.parent._get_scenario_attribute(attrDef.id, scenarioIdx)\n                    if parent_attr.provided:")]),
+    ("c08_children_get_own_end_only", "C08", [(PJ, "                    propagate_end_to_children(child, effective_end)", "                    propagate_end_to_children(child, task_end)")]),
+    ("c15_macro_calls_by_regex", "C15", [(MP, "    def _expand_once(self, content: str) -> str:\n        \"\"\"Perform one pass of macro expansion.\"\"\"\n", "    def _expand_once(self, content: str) -> str:\n        \"\"\"Perform one pass of macro expansion.\"\"\"\n        return re.sub(r\"\\$\\{([^{}]*)\\}\", lambda m: self._expand_macro_call(m.group(1).strip()), content)\n")]),
     # ------------------------------------------------------------------ reverts of repaired defects F61 (C13), F62 (C11)
     ("c13_fallback_uses_unimported_math", "C13", [(PJ, "from datetime import timedelta\nimport math\n", "from datetime import timedelta\n")]),
     ("c11_timing_resolution_zero_accepted", "C11", [(TP, "            if seconds <= 0:\n                raise ValueError(f\"timingresolution must be a positive duration, not '{duration}'\")\n", "")]),
@@ -258,6 +275,24 @@ UNDECIDED = [
 
 # behaviour-preserving edits: the checks named must stay silent
 BENIGN = [
+    # ------------------------------------------------------------------ round 3 (second batch)
+    ("b_day_range_branches_swapped", ["C02"], [(TP, "            if start_idx <= end_idx:\n                return day_order[start_idx : end_idx + 1]\n            else:\n                # Wrap around (unusual but supported)\n                return day_order[start_idx:] + day_order[: end_idx + 1]", "            if start_idx > end_idx:\n                return day_order[start_idx:] + day_order[: end_idx + 1]\n            return day_order[start_idx : end_idx + 1]")]),
+    ("b_csv_rows_as_list", ["C18", "C19"], [(RP, "            writer.writerows(csv_data)", "            writer.writerows(list(csv_data))")]),
+    ("b_strip_shortcut_covers_all_kinds", ["C15"], [(MP, "    result = []\n    i = 0\n    n = len(text)\n\n    while i < n:\n        ch = text[i]\n        if ch in \"\\\"'\":", "    if \"#\" not in text and \"/\" not in text:\n        return text\n    result = []\n    i = 0\n    n = len(text)\n\n    while i < n:\n        ch = text[i]\n        if ch in \"\\\"'\":")]),
+    ("b_builder_kept_and_reset", ["C15", "C12"], [
+        (TP, "        self.parser: Lark = Lark(self.grammar, start=\"start\", parser=\"lalr\")\n", "        self.parser: Lark = Lark(self.grammar, start=\"start\", parser=\"lalr\")\n        self._builder = ModelBuilder()\n"),
+        (TP, "        builder = ModelBuilder()\n        project = builder.build(data)", "        project = self._builder.build(data)"),
+        (TP, "        if not data or not data.get(\"project\"):\n            raise ValueError(\"No project definition found\")\n", "        self._explicit_scenario_attrs = set()\n        self._pending_depends = []\n        self._pending_precedes = []\n        self._scenarios_cleared = False\n        if not data or not data.get(\"project\"):\n            raise ValueError(\"No project definition found\")\n"),
+        (TP, "        if parent is None and not hasattr(self, \"_scenarios_cleared\"):", "        if parent is None and not getattr(self, \"_scenarios_cleared\", False):")]),
+    ("b_idx_date_memo_cleared_by_every_writer", ["C17", "C13", "C12"], [
+        (PJ, "        self.scoreboardNoLeaves: Optional[Scoreboard] = None\n", "        self.scoreboardNoLeaves: Optional[Scoreboard] = None\n        self._idxDates: dict[int, Any] = {}\n"),
+        (PJ, "        if _USE_CYTHON:\n            return project_idx_to_date(idx, self.attributes[\"start\"], self.attributes[\"scheduleGranularity\"])\n\n        # Assuming idx is integer steps of scheduleGranularity from start\n        seconds: int = idx * self.attributes[\"scheduleGranularity\"]\n        return self.attributes[\"start\"] + timedelta(seconds=seconds)\n",
+             "        kept = self._idxDates.get(idx)\n        if kept is not None:\n            return kept\n        if _USE_CYTHON:\n            kept = project_idx_to_date(idx, self.attributes[\"start\"], self.attributes[\"scheduleGranularity\"])\n        else:\n            seconds: int = idx * self.attributes[\"scheduleGranularity\"]\n            kept = self.attributes[\"start\"] + timedelta(seconds=seconds)\n        self._idxDates[idx] = kept\n        return kept\n"),
+        (PJ, "        self.attributes[key] = value\n        # When timingresolution is set, also update scheduleGranularity\n        if key == \"timingresolution\":\n            self.attributes[\"scheduleGranularity\"] = value\n", "        self.attributes[key] = value\n        # When timingresolution is set, also update scheduleGranularity\n        if key == \"timingresolution\":\n            self.attributes[\"scheduleGranularity\"] = value\n        self._idxDates.clear()\n")]),
+    ("b_children_end_selected_inline", ["C08"], [(PJ, "                    propagate_end_to_children(child, effective_end)", "                    propagate_end_to_children(child, task_end if task_end else container_end)")]),
+    ("b_date_to_idx_clamp_on_request", ["C11", "C17", "C13"], [(PJ, "    def dateToIdx(self, date: Any, forceIntoProject: bool = True) -> int:", "    def dateToIdx(self, date: Any, forceIntoProject: bool = True, clamp: bool = False) -> int:"),
+        (PJ, "            return int(project_date_to_idx(date, self.attributes[\"start\"], self.attributes[\"scheduleGranularity\"]))\n", "            fast_idx = int(project_date_to_idx(date, self.attributes[\"start\"], self.attributes[\"scheduleGranularity\"]))\n            return min(max(fast_idx, 0), self.scoreboardSize() - 1) if clamp else fast_idx\n"),
+        (PJ, "        idx: int = math.floor(diff_seconds / self.attributes[\"scheduleGranularity\"])\n        return idx", "        idx: int = math.floor(diff_seconds / self.attributes[\"scheduleGranularity\"])\n        return min(max(idx, 0), self.scoreboardSize() - 1) if clamp else idx")]),
     # ------------------------------------------------------------------ round 3
     ("b_limits_chain_kept_per_scenario", ["C16", "C05", "C07", "C12"], [(TS, "        all_limits = []\n        task: Optional[Any] = self.property\n        while task is not None:\n            limits = task.get(\"limits\", self.scenarioIdx)\n            if limits:\n                all_limits.append(limits)\n            task = task.parent\n        return all_limits", "        all_limits = getattr(self, \"_limitsChain\", None)\n        if all_limits is not None:\n            return all_limits\n        all_limits = []\n        task: Optional[Any] = self.property\n        while task is not None:\n            limits = task.get(\"limits\", self.scenarioIdx)\n            if limits:\n                all_limits.append(limits)\n            task = task.parent\n        self._limitsChain = all_limits\n        return all_limits")]),
     ("b_zero_efficiency_repaired_by_if", ["C11"], [(TS, "        efficiency = resource.get(\"efficiency\", self.scenarioIdx) or 1.0\n\n        # Calculate required duration", "        efficiency = resource.get(\"efficiency\", self.scenarioIdx)\n        if not efficiency:\n            efficiency = 1.0\n\n        # Calculate required duration")]),
